@@ -34,7 +34,7 @@ pub fn qft(a_mask: N) -> MultiOp {
 pub fn qft_swapped(a_mask: N) -> MultiOp {
     let mut vec_mask = Vec::with_capacity(a_mask.count_ones() as N);
     let mut idx = 1;
-    while idx <= a_mask {
+    while idx != 0 && idx <= a_mask {
         if idx & a_mask != 0 {
             vec_mask.push(idx);
         }
